@@ -1,9 +1,147 @@
-(* Properties_C19.v -- the C19 theorems and nothing else. *)
+(* Properties_C19.v -- the C19 theorems and nothing else.  Each is closed by [exact] of a
+   lemma proved in BigIntProofs.v / BigIntProofs2.v / BigIntHelpers.v / BigIntTop.v.
+   Model: BigIntModel.v = Include/BigInt.hpp after the repairs D6-D10, D31.
+   All statements are for every word width w, every number of words and every state /
+   history (induction over the word list and over the history; no bounds), except the
+   explicitly bounded c19_div2_h3_partial.
+
+   Notation: bval w s = sum of word_i * 2^(i*w);  pw w i = 2^(w*i);
+   WF w s = words < 2^w, index inside the array, every word above index is zero and
+            index is the highest non-zero word (0 for the value zero).
+
+   NOT proved here (tied by the correspondence run only): the wide-operand forms of
+   = += -= |= &=, = |= &= of a word, FindFirstBit / FindLastBit, the narrowing
+   conversion, copy-assignment; and div2_ok for 64-bit words (the
+   128/64 algorithm) is an explicit premise -- it is proved only exhaustively at 3-bit
+   halves (c19_div2_h3_partial). *)
 From Coq Require Import NArith List.
-From Qv Require Import BigIntModel BigIntProofs.
+From Qv Require Import BigIntModel BigIntProofs BigIntProofs2 BigIntHelpers BigIntShift BigIntShiftL BigIntTop.
 Import ListNotations.
 Local Open Scope N_scope.
 
-Theorem c19_value_nil : forall w, value w [] = 0.
-Proof. exact value_nil. Qed.
-Print Assumptions c19_value_nil.
+(* Add(number, index): carry chain; no error, invariant kept, exact sum *)
+Theorem c19_add : forall w s c i, WF w s -> c < Bw w ->
+  bval w s + c * pw w i < pw w (length (words s)) ->
+  exists s', add w s c i = Ok s' /\ WF w s' /\ bval w s' = bval w s + c * pw w i /\
+             length (words s') = length (words s).
+Proof. exact add_correct. Qed.
+Print Assumptions c19_add.
+
+(* Subtract(number, index): borrow chain *)
+Theorem c19_subtract : forall w s c i, WF w s -> c < Bw w -> c * pw w i <= bval w s ->
+  exists s', sub w s c i = Ok s' /\ WF w s' /\ bval w s' + c * pw w i = bval w s /\
+             length (words s') = length (words s).
+Proof. exact sub_correct. Qed.
+Print Assumptions c19_subtract.
+
+(* DoubleSize::Multiply is the exact double-word product, for every word width; the
+   64-bit variant (half-word schoolbook) generically in the half width h *)
+Theorem c19_mul2_half : forall h x m, x < 2 ^ (2 * h) -> m < 2 ^ (2 * h) ->
+  let '(lo, hi) := mul2_half h x m in
+  lo < 2 ^ (2 * h) /\ hi < 2 ^ (2 * h) /\ lo + hi * 2 ^ (2 * h) = x * m.
+Proof. exact mul2_half_correct. Qed.
+Print Assumptions c19_mul2_half.
+
+Theorem c19_mul2 : forall w, 0 < w -> mul2_ok w.
+Proof. exact mul2_ok_all. Qed.
+Print Assumptions c19_mul2.
+
+(* Multiply(word) (with the D9 repair): exact product, invariant kept *)
+Theorem c19_multiply : forall w, 0 < w -> forall s m, WF w s -> m < Bw w ->
+  bval w s * m < pw w (length (words s)) ->
+  exists s', multiply w s m = Ok s' /\ WF w s' /\ bval w s' = bval w s * m /\
+             length (words s') = length (words s).
+Proof. intros w Hw. exact (multiply_correct w (mul2_ok_all w Hw)). Qed.
+Print Assumptions c19_multiply.
+
+(* DoubleSize<., 8|16|32>::Divide *)
+Theorem c19_div2_narrow : forall w, w <> 64 -> div2_ok w.
+Proof. exact div2_ok_narrow. Qed.
+Print Assumptions c19_div2_narrow.
+
+(* Divide(word): exact quotient and remainder, invariant kept -- relative to the
+   contract of the double-word division helper *)
+Theorem c19_divide : forall w, div2_ok w -> forall s d, WF w s -> 0 < d < Bw w ->
+  exists s' r, divide w s d = Ok (s', r) /\ WF w s' /\ bval w s' = bval w s / d /\
+               r = bval w s mod d /\ length (words s') = length (words s).
+Proof. exact divide_correct. Qed.
+Print Assumptions c19_divide.
+
+(* ... hence unconditionally for 8, 16 and 32-bit words (any width other than 64) *)
+Theorem c19_divide_narrow : forall w, w <> 64 -> forall s d, WF w s -> 0 < d < Bw w ->
+  exists s' r, divide w s d = Ok (s', r) /\ WF w s' /\ bval w s' = bval w s / d /\
+               r = bval w s mod d /\ length (words s') = length (words s).
+Proof. intros w Hw. exact (divide_correct w (div2_ok_narrow w Hw)). Qed.
+Print Assumptions c19_divide_narrow.
+
+(* PARTIAL for 64-bit words: the 128/64 algorithm (normalising shift, two half-word
+   quotient digits with double correction, repaired overflow branch D8), re-instantiated
+   at 3-bit halves, is exact on ALL (hi, lo, d) with 0 < d < 64, hi < d, lo < 64 *)
+Theorem c19_div2_h3_partial : forall hi lo d, 0 < d < 64 -> hi < d -> lo < 64 ->
+  div2_half 3 hi lo d (5 - N.log2 d) = ((hi * 64 + lo) mod d, (hi * 64 + lo) / d).
+Proof. exact div2_half_h3_partial. Qed.
+Print Assumptions c19_div2_h3_partial.
+
+(* ShiftRight by any number of bits: whole-word move, then bit shift *)
+Theorem c19_shift_right : forall w, 0 < w -> forall s offset, WF w s ->
+  exists s', shift_right w s offset = Ok s' /\ WF w s' /\ bval w s' = bval w s / 2 ^ offset /\
+             length (words s') = length (words s).
+Proof. exact shift_right_correct. Qed.
+Print Assumptions c19_shift_right.
+
+(* ShiftLeft (with the D7 repair), whenever the shifted value fits; includes the value zero *)
+Theorem c19_shift_left : forall w, 0 < w -> forall s offset, WF w s ->
+  bval w s * 2 ^ offset < pw w (length (words s)) ->
+  exists s', shift_left w s offset = Ok s' /\ WF w s' /\ bval w s' = bval w s * 2 ^ offset /\
+             length (words s') = length (words s).
+Proof. exact shift_left_correct. Qed.
+Print Assumptions c19_shift_left.
+
+Theorem c19_clear : forall w s, WF0 w s ->
+  exists s', clear s = Ok s' /\ WF w s' /\ bval w s' = 0 /\ length (words s') = length (words s).
+Proof. exact clear_correct. Qed.
+Print Assumptions c19_clear.
+
+(* Index() is the word of the highest set bit of the value *)
+Theorem c19_index_is_top_word : forall w, 0 < w -> forall s, WF w s -> index s = top_index w (bval w s).
+Proof. exact WF_index_top. Qed.
+Print Assumptions c19_index_is_top_word.
+
+(* < <= > >= == != against a word (both operand orders), IsZero, NotZero, IsBig *)
+Theorem c19_compare : forall w, 0 < w -> forall s v, WF w s -> v < Bw w ->
+  compare_word s v = Ok (cmp_bits w (bval w s) v).
+Proof. exact compare_correct. Qed.
+Print Assumptions c19_compare.
+
+(* one step of a history, for the operations of [proved_op] *)
+Theorem c19_step : forall w, 0 < w -> div2_ok w -> forall n s o v' r,
+  proved_op w o -> WF w s -> length (words s) = n ->
+  spec_op w n (bval w s) o = Some (v', r) ->
+  exists s', run_op w s o = Ok (s', r) /\ WF w s' /\ bval w s' = v' /\ length (words s') = n.
+Proof. intros w Hw. exact (step_correct w Hw (mul2_ok_all w Hw)). Qed.
+Print Assumptions c19_step.
+
+(* every history of Add / Subtract (at any word), += / -= word, Multiply, Divide, <<=, >>=,
+   Clear: as long
+   as the specification speaks (results fit, preconditions hold) no step errs, every
+   state satisfies the invariant and holds exactly the specified integer, every returned
+   remainder is exact *)
+Theorem c19_history : forall w, 0 < w -> div2_ok w -> forall n ops s outs,
+  Forall (proved_op w) ops -> WF w s -> length (words s) = n ->
+  spec_run w n (bval w s) ops = Some outs ->
+  Forall2 (obs_ok w n) (run_ops w s ops) outs.
+Proof. intros w Hw. exact (history_correct w Hw (mul2_ok_all w Hw)). Qed.
+Print Assumptions c19_history.
+
+(* ... unconditionally for 8/16/32-bit words, from the zero object *)
+Theorem c19_history_narrow : forall w, 0 < w -> w <> 64 -> forall n ops outs, (0 < n)%nat ->
+  Forall (proved_op w) ops -> spec_run w n 0 ops = Some outs ->
+  Forall2 (obs_ok w n) (run_ops w (zero_big n) ops) outs.
+Proof.
+  intros w Hw Hne n ops outs Hn Hp Hs.
+  destruct (zero_big_WF w Hw n Hn) as (HWF & Hz).
+  apply (history_correct w Hw (mul2_ok_all w Hw) (div2_ok_narrow w Hne) n ops (zero_big n) outs Hp HWF).
+  - unfold zero_big. cbn. apply repeat_length.
+  - rewrite Hz. exact Hs.
+Qed.
+Print Assumptions c19_history_narrow.
